@@ -127,7 +127,7 @@ func C11() *runner.Property {
 		CaseTimeout: 120e9,
 		Cases: func(tier string, seed int64) []runner.Case {
 			r := rng.New(uint64(seed) ^ 0xC11)
-			n := 300
+			n := 900
 			if tier == "thorough" {
 				n = 30000
 			}
